@@ -28,6 +28,7 @@ func runC03(c *core.Ctx) {
 	h.releaseEmptiesHolders("C03.7 release-empties-queue")
 	// what a follower restores from is labelled with the snapshot's own index and term
 	h.snapshotFallback("C03.8 snapshot-fallback")
+	h.installCommitsWhatItKeeps("C03.9 install-commit")
 }
 
 func runC07(c *core.Ctx) {
